@@ -163,11 +163,11 @@ impl FormMultipartData {
 
             bytes_read = bytes_read + bytes_offset as i128;
 
-            let escaped_dash_boundary = boundary.replace(SYMBOL.hyphen, SYMBOL.empty_string);
-
+            // the delimiter line is the one that contains the boundary as given: the bytes of the
+            // line are compared with the bytes of the boundary, hyphens included on both sides
             current_string_is_boundary = false;
-            if b.len() >= escaped_dash_boundary.len() {
-                let boxed_sequence = FormMultipartData::find_subsequence(b, escaped_dash_boundary.as_bytes());
+            if b.len() >= boundary.len() {
+                let boxed_sequence = FormMultipartData::find_subsequence(b, boundary.as_bytes());
                 if boxed_sequence.is_some() {
                     current_string_is_boundary = true;
                     _boundary_position = boxed_sequence.unwrap();
